@@ -322,7 +322,12 @@ func ParseOTPAuthURL(u *url.URL) (*URLParam, error) {
 	}
 	issuer, accountName := parts[0], parts[1]
 
-	query := u.Query()
+	// u.Query() silently drops every pair it cannot parse (a ';' or a bad
+	// percent escape in it), which would turn "digits=8;x=1" into the default.
+	query, err := url.ParseQuery(u.RawQuery)
+	if err != nil {
+		return nil, fmt.Errorf("malformed query string")
+	}
 
 	param := &URLParam{
 		Issuer:      issuer,
